@@ -1,6 +1,7 @@
 
 from __future__ import annotations
 
+import re
 from datetime import datetime, tzinfo
 
 from .. import Params, Parseable
@@ -19,6 +20,8 @@ class DateTime(Parseable[datetime]):
         raw: The raw bytestring from IMAP parsing.
 
     """
+
+    _zone = re.compile(r' [+-][0-9]{4}$')
 
     def __init__(self, when: datetime, raw: bytes | None = None) -> None:
         super().__init__()
@@ -44,7 +47,7 @@ class DateTime(Parseable[datetime]):
         try:
             when_str = str(string.value, 'ascii')
             when = datetime.strptime(when_str, '%d-%b-%Y %X %z')
-            if when.strftime('%z') != when_str[-5:]:
+            if cls._zone.search(when_str) is None:
                 # strptime also takes Z, +hh:mm and offsets with seconds
                 raise ValueError(when_str)
         except ValueError as exc:
